@@ -241,6 +241,8 @@ class EngineBase:
         if r is None:
             if n in ("True", "False", "None"):
                 raise Untranslatable(n)
+            if n in EXC_BASES:
+                return SV(con(n), Ty("class", (), n))
             # builtin names used as values
             return SV(con("builtin:" + n), TCON)
         kind, info = r
@@ -365,8 +367,23 @@ class EngineBase:
                     out.append(r)
                     continue
                 tr = self.truth(r.st, r.val)
-                # short circuit: value decides
                 stop = z3.Not(tr) if is_and else tr
+                # pure right-hand side (no fork, no raise, no heap effect, no obligation): no path split needed
+                nob = len(self.obls)
+                saved_ord = dict(self.call_ord)
+                probe = r.st.copy()
+                rest = go(i + 1, probe)
+                if (len(rest) == 1 and rest[0].exc is None and len(self.obls) == nob
+                        and all(rest[0].st.heap[c] is r.st.heap[c] or rest[0].st.heap[c].eq(r.st.heap[c]) for c in r.st.heap)):
+                    v2 = rest[0].val
+                    if v2.ty == TBOOL and r.val.ty == TBOOL:
+                        val = SV(vbool(z3.And(Val.b(r.val.t), Val.b(v2.t)) if is_and else z3.Or(Val.b(r.val.t), Val.b(v2.t))), TBOOL)
+                    else:
+                        val = SV(z3.If(stop, r.val.t, v2.t), r.val.ty if r.val.ty == v2.ty else ANY)
+                    out.append(Res(rest[0].st, val))
+                    continue
+                del self.obls[nob:]
+                self.call_ord = saved_ord
                 s_stop = r.st.fork(stop)
                 s_go = r.st.fork(z3.Not(stop))
                 if self.feasible(s_stop):
@@ -444,6 +461,8 @@ class EngineBase:
             return s.d_has(Val.a(coll.t), x.t)
         if k == "set":
             return s.s_has(Val.a(coll.t), x.t)
+        if k == "pair":
+            return z3.Or(x.t == Val.fst(coll.t), x.t == Val.snd(coll.t))
         if k == "tuple":
             from .comps import tmem, tmem_intro
             a = Val.a(coll.t)
